@@ -37,6 +37,8 @@ type CoopStats struct {
 	Exhaustive           bool
 	Caps                 []string
 	MaxPreemptions       int
+	KnownHits, Unknown   int
+	Poisoned             bool
 	Sample               interface{}
 }
 
@@ -54,6 +56,9 @@ func preemptionsBefore(pts []vsched.PointRec, i int) int {
 func RunOnce(h Harness, prefix []int, maxSteps int, trace bool) (*vsched.Sched, *Violation, uint64) {
 	body, check := h()
 	s := vsched.Run(prefix, maxSteps, nil, trace, body)
+	if s.Outcome == vsched.Hung {
+		return s, &Violation{Kind: "hang", Key: "hang", Detail: s.Detail}, 0
+	}
 	if s.Outcome == vsched.Diverged {
 		return s, &Violation{Kind: "harness-diverged", Key: "diverged", Detail: s.Detail}, 0
 	}
@@ -90,6 +95,14 @@ func Explore(job string, h Harness, cfg CoopCfg) *CoopStats {
 			break
 		}
 		s, v, o := RunOnce(h, prefix, cfg.MaxSteps, false)
+		if s.Outcome == vsched.Hung {
+			rp, _ := json.Marshal(CoopReplay{Job: job, Choices: prefix})
+			v.Replay, v.Job = rp, job
+			st.Violations = append(st.Violations, *v)
+			st.Poisoned = true
+			st.Exhaustive = false
+			return st
+		}
 		skipCount := first && cfg.ShardI != 0 // root execution is accounted to shard 0
 		if !skipCount {
 			st.Execs++
@@ -105,8 +118,16 @@ func Explore(job string, h Harness, cfg CoopCfg) *CoopStats {
 				if v.Kind == "harness-diverged" {
 					v.Detail += fmt.Sprintf(" prefix=%v", prefix)
 				}
-				st.Violations = append(st.Violations, *v)
-				if len(st.Violations) >= 8 {
+				if IsKnown(v.Property, v.Key) {
+					st.KnownHits++
+					if st.KnownHits <= 2 {
+						st.Violations = append(st.Violations, *v)
+					}
+				} else {
+					st.Violations = append(st.Violations, *v)
+					st.Unknown++
+				}
+				if st.Unknown >= 8 {
 					st.Exhaustive = false
 					st.Caps = append(st.Caps, job+": stopped after 8 violations")
 					break
@@ -165,10 +186,14 @@ func (st *CoopStats) Into(r *Result) {
 		r.Exhaustive = false
 	}
 	r.Caps = append(r.Caps, st.Caps...)
+	if st.Poisoned {
+		r.Poisoned = true
+	}
 	if st.Sample != nil {
 		r.Sample(st.Sample)
 	}
 	r.AddExtra("coop_executions", st.Execs)
+	r.AddExtra("executions_matching_known_findings", int64(st.KnownHits))
 	r.AddExtra("coop_decision_points", st.Points)
 }
 
